@@ -50,7 +50,7 @@ type Case struct {
 	Steps []Step     `json:"steps"`
 }
 
-var ops = []string{"body", "body_dep", "dep_func", "dep_func_samelen", "dep_method", "pure", "nonnil", "pad", "local", "ignore", "initialism", "rangeint", "conf_pkg", "conf_root", "conf_rm", "flag_go", "flag_tags", "flag_tests", "flag_checks", "goos", "patterns", "touch", "revert", "clock", "tagfile", "osfiles", "test_files", "gomod_go", "rerun"}
+var ops = []string{"body", "body_dep", "dep_func", "dep_func_samelen", "dep_method", "dep_method_samelen", "recvmix", "pure", "nonnil", "pad", "local", "ignore", "initialism", "rangeint", "conf_pkg", "conf_root", "conf_rm", "flag_go", "flag_tags", "flag_tests", "flag_checks", "goos", "patterns", "touch", "revert", "clock", "tagfile", "osfiles", "test_files", "gomod_go", "rerun"}
 
 var goVersions = []string{"", "1.21", "1.22", "1.20", "1.23"}
 var checkSets = []string{"", "all", "inherit,-SA4018", "SA*,U1000", "all,-U1000"}
@@ -139,7 +139,16 @@ func apply(st *state, step Step, history []state) int64 {
 			p.DepFunc = 1
 		}
 	case "dep_method":
-		p.DepMethod = !p.DepMethod
+		p.DepMethod = (p.DepMethod + 1) % 2
+	case "dep_method_samelen":
+		// same length, export data unchanged; reaches importers of importers through Via()
+		if p.DepMethod == 1 {
+			p.DepMethod = 2
+		} else {
+			p.DepMethod = 1
+		}
+	case "recvmix":
+		p.RecvMix = !p.RecvMix
 	case "pure":
 		p.Pure = !p.Pure
 	case "nonnil":
@@ -382,7 +391,7 @@ func (engine) Generate(seed uint64, index int, tier string) json.RawMessage {
 		switch ops[i] {
 		case "flag_tests", "test_files", "goos":
 			w[i] = r.N(2) // expensive states
-		case "dep_func", "dep_func_samelen", "dep_method", "pure", "nonnil", "revert", "body_dep":
+		case "dep_func", "dep_func_samelen", "dep_method", "dep_method_samelen", "pure", "nonnil", "revert", "body_dep":
 			w[i] += 2
 		}
 		tot += w[i]
